@@ -18,7 +18,8 @@ QAddrs == {None, 0, 327680, 2147418112}
 TAddrs == {None, 0, 1, 327680, 65535, 2147418112}
 
 PTypes == <<TNm("u32"), TCPtr(TNm("u8")), TNm("i64"), TMPtr(TNm("T")), TNm("u8"), TNm("f32")>>
-PNames == <<"a", "b", "c", "this", "e", "g">>
+(* the second parameter is named like the function itself (`f`), the fourth like the receiver of the emitted closure *)
+PNames == <<"a", "f", "c", "this", "e", "g">>
 Missing == TCPtr(TNm("Missing"))
 
 Params(n, bad) == [i \in 1..n |-> Arg(PNames[i], IF bad = i THEN Missing ELSE PTypes[i])]
@@ -29,7 +30,7 @@ RetTy(r) == CASE r = "u32" -> TNm("u32") [] r = "ptr" -> TMPtr(TNm("T")) [] r = 
 F(name, recv, n, bad, ret, addr) ==
   Func(name, "pub", <<>>, RecvArg(recv) \o Params(n, bad), RetTy(ret), addr, None, "")
 
-EvalTy(k) == CASE k = "scalar" -> TNm("u32") [] k = "ptr" -> TMPtr(TNm("T")) [] k = "arr" -> TArr(TNm("u16"), 4)
+EvalTy(k) == CASE k \in {"scalar", "readdr"} -> TNm("u32") [] k = "ptr" -> TMPtr(TNm("T")) [] k = "arr" -> TArr(TNm("u16"), 4)
                [] k = "struct" -> TNm("T") [] OTHER -> TNm("Missing")
 
 MkInput(ptr, recv, n, bad, ret, addr, second, single, ek, eaddr) ==
@@ -54,6 +55,8 @@ MkInput(ptr, recv, n, bad, ret, addr, second, single, ek, eaddr) ==
                \o <<[Impl("T", <<f1>> \o f2) EXCEPT !.battrs = IF second = "blockaddr" THEN <<"address(0x70000)">> ELSE <<>>]>>
       evals == IF ek = "none" THEN <<>>
                ELSE IF ek = "two" THEN <<ExtVal("gv", "pub", TNm("u32"), 4096), ExtVal("hv", "pub", TMPtr(TNm("u16")), eaddr)>>
+               (* the address stated twice: like every integer attribute, the last statement counts *)
+               ELSE IF ek = "readdr" THEN <<ExtVal("gv", "pub", TNm("u32"), eaddr) @@ [oattrs |-> <<"address(0x3000)">>]>>
                ELSE <<ExtVal("gv", "pub", EvalTy(ek), eaddr)>>
       (* an opaque singleton: a type without storage *)
       Eng == [TypeDef("Eng", "pub", <<>>) EXCEPT !.singleton = 262144]
@@ -71,6 +74,7 @@ MCInit ==
         (* 4096 is also the address of the first of two extern values: two views of one location *)
         /\ (eaddr = 4096 => ek = "two")
         /\ (ek = "none" => eaddr = None)
+        /\ (ek = "readdr" => eaddr = 196608)
         (* keep the product small: vary the accessor side only with the simplest function *)
         /\ ((single # "none" \/ ek # "none") => (n = 0 /\ ret = "none" /\ second = "none" /\ recv = "const" /\ addr = 327680))
         /\ input = MkInput(ptr, recv, n, bad, ret, addr, second, single, ek, eaddr)
